@@ -4,7 +4,8 @@
    `vtree_builders` instantiates the constructors of Serde/ViewDe.v `view_gen`:
      text         -> VText          flex      -> VFlex        container -> VContainer
      glyph        -> VGlyph         image     -> VImage       tag       -> VTag
-     ref          -> VRef None  (ViewCached: the deserialiser is given no cache in these documents)
+     ref          -> VRef (what the cache holds for it, if anything)
+     a type with a registered handler -> whatever view the handler returns
      trace-layout -> the inner view (TraceLayout::layout / render delegate to it on the same node)
      image_ascii  -> VImageAscii
    The CONTENT of the nodes (cells of a text, parsed faces, alignment, flex factors, margins, ids)
@@ -31,15 +32,19 @@ Record content := {
   margins_of : json -> margins;
   tag_of : json -> N;
   glyph_id : json -> N;
+  glyph_cells_of : json -> nat * nat;          (* the glyph's size in cells (the `size` attribute, default 1 x 3) *)
   fallback_of : json -> list N;
   image_id : image -> N;
-  ascii_color : image -> N
+  ascii_color : image -> N;
+  cache_of : json -> option vtree;            (* what the ViewCache holds for a ref node, if anything *)
+  custom_of : json -> vtree                   (* what a registered handler returns *)
 }.
 
 Section Tree.
   Variable orc : N -> json -> bool.
   Variable frgba : str -> option rgba.
   Variable K : content.
+  Variable handlers : str -> bool.
 
   Definition attr {A} (j : json) (k : string) (f : json -> A) (d : A) : A :=
     match jget j (s2l k) with Some v => f v | None => d end.
@@ -70,15 +75,16 @@ Section Tree.
                     (attr j "margins" (margins_of K) (mkM 0 0 0 0))
                     (fst (size_attr j (0, 0))) (snd (size_attr j (0, 0)));
        b_glyph := fun j =>
-         VGlyph (glyph_id K j) (N.to_nat (fst (size_attr j (1, 3)))) (N.to_nat (snd (size_attr j (1, 3)))) (fallback_of K j);
+         VGlyph (glyph_id K j) (fst (glyph_cells_of K j)) (snd (glyph_cells_of K j)) (fallback_of K j);
        b_image := fun j img => VImage (image_id K img) (i_h img) (i_w img);
        b_ascii := fun _ img => Ok (VImageAscii (i_h img) (i_w img) (ascii_color K img));
        b_tag := fun j x => VTag (tag_of K j) x;
-       b_ref := fun _ => VRef None;
-       b_trace := fun _ x => x |}.
+       b_ref := fun j => VRef (cache_of K j);
+       b_trace := fun _ x => x;
+       b_custom := fun j => custom_of K j |}.
 
   (* the view tree of a document *)
-  Definition view_tree (k : vkind) (j : json) : outcome vtree := view_gen_kind orc frgba vtree_builders k j.
+  Definition view_tree (k : vkind) (j : json) : outcome vtree := view_gen_kind orc frgba handlers vtree_builders k j.
 
   (* ---- coverage: whatever deserialises has a view tree *)
 
@@ -92,8 +98,8 @@ Section Tree.
   Qed.
 
   Lemma view_gen_covered : forall fuel j,
-    view_gen orc frgba (unit_builders) fuel j = Ok tt ->
-    covered (view_gen orc frgba vtree_builders fuel j).
+    view_gen orc frgba handlers (unit_builders) fuel j = Ok tt ->
+    covered (view_gen orc frgba handlers vtree_builders fuel j).
   Proof.
     induction fuel as [|f IH]; intros j; [discriminate|].
     cbn [view_gen].
@@ -102,7 +108,7 @@ Section Tree.
     { intros H. apply (bind_cov _ _ _ H). intros a _ _. eexists. reflexivity. }
     destruct (str_eqb t (s2l "trace-layout")).
     { destruct (jget j (s2l "view")) as [v|]; [|discriminate]. intros H.
-      destruct (view_gen orc frgba unit_builders f v) as [[]| | |] eqn:E; try discriminate.
+      destruct (view_gen orc frgba handlers unit_builders f v) as [[]| | |] eqn:E; try discriminate.
       destruct (IH v E) as [x Ex]; rewrite Ex; cbn [bind]; eexists; reflexivity. }
     destruct (str_eqb t (s2l "flex")).
     { intros H. apply (bind_cov _ _ _ H). intros _ _ H1. apply (bind_cov _ _ _ H1). intros _ _ H2.
@@ -131,7 +137,7 @@ Section Tree.
       apply (bind_cov _ _ _ H2). intros _ _ H3. apply (bind_cov _ _ _ H3). intros _ _ H4.
       apply (bind_cov _ _ _ H4). intros _ _ H5.
       destruct (jget j (s2l "child")) as [v|]; [|discriminate].
-      destruct (view_gen orc frgba unit_builders f v) as [[]| | |] eqn:E; try discriminate.
+      destruct (view_gen orc frgba handlers unit_builders f v) as [[]| | |] eqn:E; try discriminate.
       destruct (IH v E) as [x Ex]; rewrite Ex; cbn [bind]; eexists; reflexivity. }
     destruct (str_eqb t (s2l "glyph")).
     { intros H. apply (bind_cov _ _ _ H). intros a _ _. eexists. reflexivity. }
@@ -143,14 +149,15 @@ Section Tree.
     destruct (str_eqb t (s2l "tag")).
     { destruct (jget j (s2l "view")) as [v|]; [|discriminate].
       destruct (jget j (s2l "tag")); [|discriminate]. intros H.
-      destruct (view_gen orc frgba unit_builders f v) as [[]| | |] eqn:E; try discriminate.
+      destruct (view_gen orc frgba handlers unit_builders f v) as [[]| | |] eqn:E; try discriminate.
       destruct (IH v E) as [x Ex]; rewrite Ex; cbn [bind]; eexists; reflexivity. }
-    destruct (str_eqb t (s2l "ref")); [|discriminate].
-    intros H. apply (bind_cov _ _ _ H). intros a _ _. eexists. reflexivity.
+    destruct (str_eqb t (s2l "ref")).
+    { intros H. apply (bind_cov _ _ _ H). intros a _ _. eexists. reflexivity. }
+    destruct (handlers t); [|discriminate]. intros _. eexists. reflexivity.
   Qed.
 
   Theorem view_tree_covers (k : vkind) (j : json) :
-    view_de_kind orc frgba k j = Ok tt -> exists v, view_tree k j = Ok v.
+    view_de_kind orc frgba handlers k j = Ok tt -> exists v, view_tree k j = Ok v.
   Proof.
     unfold view_de_kind, view_tree. destruct k; cbn [view_gen_kind].
     - apply view_gen_covered.
@@ -172,3 +179,46 @@ Section Tree.
   Qed.
 
 End Tree.
+
+(* ---- the shape of a view tree as its layout tree shows it: one layout node per view node, flex has
+   one child node per child, container, tag and a cached ref one; trace-layout adds no node *)
+Inductive skel := SK (kids : list skel).
+
+Fixpoint skel_eqb (a b : skel) : bool :=
+  match a, b with
+  | SK x, SK y =>
+      (fix go (x y : list skel) : bool :=
+         match x, y with
+         | [], [] => true
+         | p :: x', q :: y' => skel_eqb p q && go x' y'
+         | _, _ => false
+         end) x y
+  end.
+
+Fixpoint vskel (v : vtree) : skel :=
+  match v with
+  | VFlex _ _ children => SK (map (fun c => vskel (fst (fst (fst c)))) children)
+  | VContainer child _ _ _ _ _ _ => SK [vskel child]
+  | VTag _ child => SK [vskel child]
+  | VFrame child _ => SK [vskel child]
+  | VRef (Some t) => SK [vskel t]          (* as repaired: the cached view gets a node of its own *)
+  | _ => SK []
+  end.
+
+(* a content with nothing in it (shapes do not depend on the content) except a cache and a handler as
+   the correspondence run installs them when asked to: uid 7 is a container around a text; the handler
+   returns a text *)
+Definition content0 (with_cache : bool) : content :=
+  {| cells_of := fun _ => ([], true); axis_of := fun _ => Hor; justify_of := fun _ => JStart;
+     flex_of := fun _ => None; cface_of := fun _ => face0; align_of := fun _ => AShrink;
+     margins_of := fun _ => mkM 0 0 0 0; tag_of := fun _ => 0; glyph_id := fun _ => 0;
+     glyph_cells_of := fun _ => (1%nat, 3%nat);
+     fallback_of := fun _ => []; image_id := fun _ => 0; ascii_color := fun _ => 0;
+     cache_of := fun j =>
+       if with_cache then
+         match jget j (s2l "ref") with
+         | Some (Json.JNum (NU 7)) => Some (VContainer (VText [] true) face0 AShrink AShrink (mkM 0 0 0 0) 0 0)
+         | _ => None
+         end
+       else None;
+     custom_of := fun _ => VText [] true |}.
